@@ -65,6 +65,31 @@ Proof.
   rewrite Zminus_mod_idemp_l. rewrite Z.mod_small by lia. reflexivity.
 Qed.
 
+Lemma narrow_fits (sgn : bool) bits z :
+  0 < bits -> 0 <= z < 2 ^ (bits - (if sgn then 1 else 0)) -> narrow sgn bits z = z.
+Proof.
+  intros Hb Hz. unfold narrow. destruct sgn.
+  - assert (E : 2 ^ bits = 2 * 2 ^ (bits - 1)).
+    { replace bits with (Z.succ (bits - 1)) at 1 by lia. apply Z.pow_succ_r. lia. }
+    rewrite E. rewrite Z.mod_small by lia. lia.
+  - rewrite Z.sub_0_r in Hz. apply Z.mod_small. exact Hz.
+Qed.
+
+(* narrow T: whenever the least quotient fits T, divRoundUp<T>(a,b) is it -- although a + b - 1 may exceed max(T) *)
+Lemma divRoundUp_narrow_least (sgn : bool) bits a b :
+  0 < bits -> 0 <= a -> 0 < b -> divRoundUp a b < 2 ^ (bits - (if sgn then 1 else 0)) ->
+  divRoundUp_n sgn bits a b = divRoundUp a b /\
+  divRoundUp_n sgn bits a b * b >= a /\ (forall q', q' * b >= a -> divRoundUp_n sgn bits a b <= q').
+Proof.
+  intros Hbits Ha Hb Hfit.
+  destruct (divRoundUp_least a b Ha Hb) as [L1 L2].
+  assert (Hq : 0 <= divRoundUp a b).
+  { unfold divRoundUp. rewrite Z.quot_div_nonneg by lia. apply Z.div_pos; lia. }
+  assert (E : divRoundUp_n sgn bits a b = divRoundUp a b).
+  { unfold divRoundUp_n. fold (divRoundUp a b). apply narrow_fits; [exact Hbits | lia]. }
+  rewrite E. repeat split; assumption.
+Qed.
+
 (* ------------------------------------------------------------ bit lemmas *)
 Lemma land_low_shifted a b n :
   0 <= n -> 0 <= a < 2 ^ n -> Z.land a (b * 2 ^ n) = 0.
